@@ -574,3 +574,58 @@ def props_remove_datacap(E, res):
         P.append(('the amount destroyed is the amount reported as removed (in token units of 10^18), taken from the named client',
                   b_and(big(E, fget(E, obj, 1, 'BigInt')) == removed * 10**18, addr_eq(fget(E, obj, 0, ADDR), fget(E, ret, RT_['verified_client'], ADDR)))))
     return P
+
+
+# ---- add_verifier / remove_verifier: only the root grants and revokes allowances ------------------------------------------------
+
+def run_verifier(which):
+    def run(E):
+        rt, rtref = new_rt(E)
+        rt.state = LazyV('st', 'State')
+        SF = Fields('actors/verifreg/src/state.rs', 'State')
+        env = E.ctx.env
+        env['vbase'] = 'map(st.%d)' % SF['verifiers']
+        params = LazyV('params', 'types::AddVerifierParams' if which == 'add_verifier' else 'types::RemoveVerifierParams')
+        env['params'] = params
+        fn = find_fn(E, VR, which, 'src/lib.rs')
+        return E.run_function(fn, [rtref, params]), rt
+    return run
+
+
+def props_verifier(which):
+    def props(E, res):
+        env = res.ctx.env
+        rt = env['rt']
+        ctx = res.ctx
+        if res.kind != 'return':
+            return [('no panic (%s)' % str(res.info)[:60], False)]
+        SF = Fields('actors/verifreg/src/state.rs', 'State')
+        if is_err(res.value):
+            return [('a refused call leaves the verifier table alone', rt.commits == 0)]
+        root = fget(E, rt.state, SF['root_key'], ADDR)
+        P = [('only the root key holder changes the set of verifiers', addr_eq(rt.caller, root))]
+        vm = heap_get(E, fget(E, rt.state, SF['verifiers'], CID))
+        P.append(('verifier table written', isinstance(vm, MapM)))
+        if not isinstance(vm, MapM):
+            return P
+        writes = list(vm.over)
+        P.append(('exactly one verifier entry is touched', len(writes) == 1))
+        if which == 'add_verifier':
+            allowance = big(E, fget(E, env['params'], 1, 'BigInt'))
+            P.append(('the allowance granted is at least the minimum allocation size (1 MiB)', allowance >= 1 << 20))
+            for (k, pres, val, _) in writes:
+                P.append(('the entry written is an ID address other than the root, holding exactly the granted allowance',
+                          b_and(pres is True, k[1] == 0, b_not(key_eq(k, ('addr', root.proto, root.key))), big(E, val) == allowance) if pres else False))
+            bal = [s for s in rt.sends if implied(ctx, b_and(s.to.proto == 0, s.to.key == DATACAP))]
+            P.append(('the datacap balance of the new verifier was queried (a verified client cannot become a verifier), read-only', len(bal) == 1 and bal[0].ok is True and implied(ctx, bal[0].value == 0)))
+            tok = find_mat(ctx, 'rt.send[0].ret.Some.0.as<', '>')
+            if tok is None:
+                P.append(('the balance answer is read', False))
+            else:
+                # balances are in token units of 10^-18 datacap; the registry counts whole datacap (the token actor keeps balances at that granularity)
+                P.append(('an address that holds datacap (a verified client) does not become a verifier', big(E, tok) < 10**18))
+        else:
+            for (k, pres, val, _) in writes:
+                P.append(('the entry is deleted, and it existed', pres is False))
+        return P
+    return props
